@@ -46,6 +46,7 @@ type World struct {
 	OnPublish  func(src int, topic string, data []byte)
 	OnEffect   func(e *Effect)
 	parks      []*Park
+	soft       []*Park // goroutines stalled by the kernel at a point right before a mutex acquisition
 	parkSeq    int
 	streams    []*SimStream
 }
